@@ -229,33 +229,27 @@ def showTexts (cs : List Com) : String :=
 def specTexts (o : Opts) (f : File) : List Com :=
   if o.minify then (sourceOrder f).filter shebangAt11 else sourceOrder f
 
+def masksOf (m : String) : Option (List Nat) :=
+  if m = "-" then some [] else (m.splitOn ",").mapM String.toNat?
+
 def handle (args : List String) : String :=
   match args with
-  | "emit" :: m :: toks =>
-    match m.toNat?, parseFile toks with
-    | some m, some f => showTexts (emitted (optsOf m) f)
+  | "tree" :: ms :: toks =>
+    -- assume/guarantee predicate, completeness of the dump, and the printer model per option set
+    match masksOf ms, parseFile toks with
+    | some ms, some f =>
+      s!"wf={WFComments f} order={showTexts (sourceOrder f)} emit=" ++
+        " | ".intercalate (ms.map fun m => showTexts (emitted (optsOf m) f))
+    | _, _ => "bad-op"
+  | "specfmt" :: ms :: toks =>
+    match masksOf ms, parseFile toks with
+    | some ms, some f => " | ".intercalate (ms.map fun m => showTexts (specTexts (optsOf m) f))
     | _, _ => "bad-op"
   | "ghost" :: m :: toks =>
     match m.toNat?, parseFile toks with
     | some m, some f =>
       let σ := printFile (optsOf m) f
-      s!"lossD={σ.lossD} inline={σ.inlineN}"
-    | _, _ => "bad-op"
-  | "wf" :: toks =>
-    match parseFile toks with
-    | some f => toString (WFComments f)
-    | none => "bad-op"
-  | "order" :: toks =>
-    match parseFile toks with
-    | some f => showTexts (sourceOrder f)
-    | none => "bad-op"
-  | "ordered" :: toks =>
-    match parseFile toks with
-    | some f => toString (SourceOrdered f)
-    | none => "bad-op"
-  | "specfmt" :: m :: toks =>
-    match m.toNat?, parseFile toks with
-    | some m, some f => showTexts (specTexts (optsOf m) f)
+      s!"lossD={σ.lossD} inline={σ.inlineN} strict={WFStrict f} ordered={SourceOrdered f}"
     | _, _ => "bad-op"
   | _ => "bad-op"
 
